@@ -24,6 +24,19 @@ func containsReturn(n ast.Node) bool {
 	return found
 }
 
+func containsPanic(n ast.Node) bool {
+	found := false
+	ast.Inspect(n, func(m ast.Node) bool {
+		if c, ok := m.(*ast.CallExpr); ok {
+			if id, ok := c.Fun.(*ast.Ident); ok && id.Name == "panic" {
+				found = true
+			}
+		}
+		return !found
+	})
+	return found
+}
+
 func callKey(c *ast.CallExpr) string {
 	var args []string
 	for _, a := range c.Args {
@@ -73,7 +86,10 @@ func (env *Env) pureIf(x *ast.IfStmt, rest []ast.Stmt, ind string) (string, erro
 		// no effect on modelled state
 		return env.block(rest, ind)
 	}
-	sub := &Env{Names: copyNames(env.Names), Calls: env.Calls, Ret: env.Ret, Fall: pureTuple(vars), OptCalls: env.OptCalls, Types: env.Types}
+	subv := *env
+	sub := &subv
+	sub.Names = copyNames(env.Names)
+	sub.Fall = pureTuple(vars)
 	var tys []string
 	for _, v := range vars {
 		tys = append(tys, env.typeOf(v))
